@@ -60,14 +60,25 @@ def fill_through(run, fn, ev):
                 if inner[0] == 'fill':
                     fdesc = el[1]
                     fill = inner[1]
-                    key = 'fill(%s) through %s' % (fill, fdesc[:50])
-                    if key in seen:
-                        continue
-                    seen.add(key)
                     null_fill = fill.endswith('NAN') or fill.endswith('none()') or fill.endswith('None')
-                    guarded = 'a.not_none()' in fdesc or 'a.is_none()' in fdesc
+                    key = 'fill(%s) through the element function' % ('null' if null_fill else fill)
+                    if (key, fdesc) in seen:
+                        continue
+                    seen.add((key, fdesc))
+                    # the function must return null whenever its first (lagged) operand is null
+                    import dtree
+                    cl = getattr(ev, 'map_closures', {}).get(fdesc)
+                    guarded = False
+                    tdesc = 'element function not a closure literal'
+                    if cl is not None and cl.get('k') == 'Closure':
+                        t = dtree.closure_table(fn.hir, cl, {})
+                        # rows partition the inputs: a non-null result only on rows that
+                        # require the lagged operand to be valid
+                        nonnull = [(cs, l) for cs, l, ef in t if l != 'NULL']
+                        guarded = bool(nonnull) and all('VALID(a0)' in cs for cs, l in nonnull)
+                        tdesc = 'non-null rows: %s' % [(sorted(cs), l) for cs, l in nonnull]
                     run.ob('SEQ.fill-through', fn, key, null_fill and guarded, loc(node),
-                           'the first |n| outputs are f(fill, x[p]) with f = `%s`: %s'
-                           % (fdesc[4:70], 'fill is a null literal and f tests it' if null_fill and guarded
+                           'the first |n| outputs are f(fill, x[p]): %s; %s'
+                           % ('fill is a null literal and f returns null on it' if null_fill and guarded
                               else 'the fill value is combined with x[p] instead of being emitted '
-                                   '(mirror arm emits the fill itself)'))
+                                   '(mirror arm emits the fill itself)', tdesc))
